@@ -748,6 +748,8 @@ class sym_int_type(int, metaclass=_IntMeta):
     """`int` as seen by message.py: int(<symbolic int>) keeps the term, int.from_bytes(<symbolic bytes>) is the big/little-endian term"""
 
     def __new__(cls, x=0, *a):
+        if cls is not sym_int_type:
+            return int.__new__(cls, x, *a)          # `int.__new__(EnumClass, value)` in the code under test
         if isinstance(x, SymInt):
             return x
         return int(x, *a)
